@@ -61,6 +61,10 @@ pub struct ItemSpec {
     /// kind = "impl_all": methods of the inherent impl(s) NOT to extract (e.g. generic serde wrappers)
     #[serde(default)]
     pub exclude: Vec<String>,
+    /// substitutions that apply where their text occurs and are skipped elsewhere (set for methods expanded from `impl_all`,
+    /// whose `subst` list is shared by the whole impl)
+    #[serde(default)]
+    pub subst_optional: bool,
     /// kind = "trait_fn": bound of the `VerifSelf` type parameter that replaces `Self`
     pub self_bound: Option<String>,
     /// kind = "local": type of the emitted const
@@ -522,6 +526,7 @@ fn main() {
                         let mut one = spec.clone();
                         one.kind = "method".into();
                         one.name = Some(name);
+                        one.subst_optional = true;
                         expanded.push(one);
                         n += 1;
                     }
